@@ -54,6 +54,11 @@ pub fn after_op(
 ) {
     let cfg = g.sys.cfg;
     let height = g.sys.height();
+    // ---------------------------------------------------------------- what is persisted can be read back (C08, C03)
+    for a in std::mem::take(&mut g.sys.db_anomalies) {
+        g.rep.fail("C08", "persisted_value_unreadable", &format!("{a}: the tower cannot read back what it stored"));
+        g.rep.fail("C03", "persisted_value_unreadable", &format!("{a}: the tower cannot restart on this database"));
+    }
     // ---------------------------------------------------------------- C11: nothing aborts
     if let Outcome::Panicked(what) = out {
         let site = panic_site(what);
